@@ -1285,6 +1285,49 @@ func ruleR19b(c *Ctx, r *RuleResult) {
 				if idx.Op == "%" && len(idx.Args) == 2 && hasField(idx.Args[0], "start") && hasField(idx.Args[1], "maxSize") {
 					ok = true
 				}
+				if !ok && idx.Op == "φ" {
+					// a local cursor that enters the loop as start (or end) and is, on every way back into the loop, either
+					// advanced by one knowing the result below the capacity or reset to 0 knowing it reached it
+					parts := strings.SplitN(idx.Leaf, ".", 2)
+					if len(parts) == 2 {
+						k, j := parts[0], atoiOr(parts[1], -1)
+						good, seenEntry, seenBack := true, false, false
+						for _, h := range gc.GCs {
+							if h.Exit.Op != "goto" || h.Exit.Leaf != k || j < 0 || j >= len(h.Exit.Args) {
+								continue
+							}
+							a := h.Exit.Args[j]
+							if itoa(h.From) != k {
+								seenEntry = true
+								if !(a.Op == "load" && a.Args[0].Op == "fa" && (a.Args[0].Leaf == "start" || a.Args[0].Leaf == "end") && a.Args[0].Args[0].String() == "p:0") {
+									good = false
+								}
+								continue
+							}
+							seenBack = true
+							d := linOf(a).add(linAtom(idx.String()), -1)
+							below, reached := false, false
+							for _, gd := range h.Guards {
+								sg := noEpoch(gd)
+								if strings.HasPrefix(sg, "(< (+ #:1 "+idx.String()+") (load (fa:maxSize p:0))") {
+									below = true
+								}
+								if strings.HasPrefix(sg, "(<= (load (fa:maxSize p:0)) (+ #:1 "+idx.String()+")") {
+									reached = true
+								}
+							}
+							switch {
+							case len(d.c) == 0 && d.k == 1 && below:
+							case a.String() == "#:0" && reached:
+							default:
+								good = false
+							}
+						}
+						if good && seenEntry && seenBack {
+							ok = true
+						}
+					}
+				}
 				if !ok {
 					badI = append(badI, fmt.Sprintf("%s indexes the ring slice with %s", p.FuncKey(fn), trunc(noEpoch(idx), 160)))
 				}
